@@ -234,10 +234,12 @@ def _run_verus_once(repo_src, tag, rlimit=None, threads=16, force_degrade=None):
         # the function is located by ANY span inside a contracted function (the primary span of a
         # failed precondition points at the callee's requires clause)
         rec = None
-        for s in spans:
-            rec = fn_at(s["line_start"])
-            if rec:
-                break
+        all_recs = []
+        for s in prim + [x for x in spans if x not in prim]:
+            r_ = fn_at(s["line_start"])
+            if r_ is not None and r_ not in all_recs:
+                all_recs.append(r_)
+        rec = all_recs[0] if all_recs else None
         clause = ""
         if prim:
             clause = " ".join(t["text"].strip() for t in prim[0].get("text", []))[:300]
@@ -247,7 +249,7 @@ def _run_verus_once(repo_src, tag, rlimit=None, threads=16, force_degrade=None):
             if 0 <= a < len(linemap) and linemap[a]:
                 origin = linemap[a]
                 break
-        entry = {"msg": msg, "gen_line": line, "fn": rec, "origin": origin, "clause": clause,
+        entry = {"msg": msg, "gen_line": line, "fn": rec, "all_fns": all_recs, "origin": origin, "clause": clause,
                  "rendered": d.get("rendered", "")[:4000], "code": (d.get("code") or {}).get("code")}
         is_verif = any(m in msg for m in VERIFICATION_MESSAGES) and not entry["code"]
         is_limit = any(m in msg.lower() for m in SOLVER_LIMIT_MESSAGES)
@@ -273,6 +275,19 @@ def _run_verus_once(repo_src, tag, rlimit=None, threads=16, force_degrade=None):
         for f in m.get("function-breakdown", []):
             res.fn_success.setdefault(f["function"], []).append(bool(f["success"]))
             res.fn_time_us[f["function"]] = res.fn_time_us.get(f["function"], 0) + f.get("time-micros", 0)
+    # a failed precondition carries two spans: the callee's `requires` clause (often the primary one, and
+    # inside ANOTHER contracted function's signature) and the call site.  The diagnostic belongs to the
+    # function Verus reports as failed.
+    for d in res.diags:
+        if d["fn"] is None or len(d.get("all_fns", [])) < 2:
+            continue
+        ok = res.fn_success.get(fn_verus_name(d["fn"]))
+        if ok is None or all(ok):
+            for alt in d["all_fns"]:
+                ok2 = res.fn_success.get(fn_verus_name(alt))
+                if ok2 is not None and not all(ok2):
+                    d["fn"] = alt
+                    break
     # ---- heuristic incompleteness is not a verdict: a function that failed is re-tried on its own
     # with other solver seeds; ANY successful run is a proof of that function.
     failed = sorted(n for n, ok in res.fn_success.items() if not all(ok))
